@@ -4,10 +4,18 @@ per message (outcome, returned flag, state-machine attributes), an `eof` event w
 stream ends before the transfer is complete, and at context exit the projection of the
 zone and whether any transaction was left open.  Only drives and projects; the verdicts
 are Trace_XfrInbound's."""
+import asyncio
+import signal
+import socket
+import struct
+
+import dns.asyncbackend
+import dns.asyncquery
 import dns.btreezone
 import dns.exception
 import dns.message
 import dns.name
+import dns.query
 import dns.rcode
 import dns.rdata
 import dns.rdataclass
@@ -21,6 +29,7 @@ import dns.zone
 ORIGIN = dns.name.from_text("example.")
 OTHER = dns.name.from_text("other.example.")
 _CREATED = []
+WATCHDOG_S = 20.0
 
 
 def _tracked(cls):
@@ -116,7 +125,7 @@ def limbs(v):
 def build_message(msg, req, query, relativize, via, from_wire_origin, multi=True):
     """One response message holding msg["rrs"], one RRset per record (order matters)."""
     rdtype = dns.rdatatype.IXFR if req == "ixfr" else dns.rdatatype.AXFR
-    absolute = via == "wire" or not relativize
+    absolute = via != "direct" or not relativize
     m = dns.message.make_response(query)
     m.set_rcode(msg["rcode"])
     m.authority = []
@@ -139,8 +148,14 @@ def build_message(msg, req, query, relativize, via, from_wire_origin, multi=True
     if via == "direct":
         return m
     wire = m.to_wire()
+    if via == "wire-bytes":
+        return wire
     return dns.message.from_wire(wire, xfr=True, origin=from_wire_origin, multi=multi,
                                  one_rr_per_rrset=(req == "ixfr"))
+
+
+class Stuck(BaseException):
+    pass
 
 
 def state_of(ib):
@@ -153,7 +168,206 @@ def state_of(ib):
         return False, [False, False, False, False, []]
 
 
+class ScriptedSocket(socket.socket):
+    """A socket object (dns.query insists on a socket.socket to recognise UDP) that never touches the
+    network: it swallows what is sent and serves the scripted frames."""
+
+    def __init__(self, kind, frames, ev):
+        super().__init__(socket.AF_INET, kind)
+        self._dgrams = list(frames)
+        self._buf = b"".join(struct.pack("!H", len(f)) + f for f in frames)
+        self._ev = ev
+        self.sent = []
+
+    def connect_ex(self, address):
+        return 0
+
+    def send(self, data, *a):
+        self.sent.append(bytes(data))
+        return len(data)
+
+    def sendto(self, data, *a):
+        self.sent.append(bytes(data))
+        return len(data)
+
+    def recv(self, n, *a):
+        chunk, self._buf = self._buf[:n], self._buf[n:]
+        if not chunk:
+            self._ev.append({"op": "eof"})
+        return chunk
+
+    def recvfrom(self, n, *a):
+        if not self._dgrams:
+            self._ev.append({"op": "eof"})
+            raise dns.exception.Timeout
+        return self._dgrams.pop(0), ("10.0.0.53", 53)
+
+
+class AsyncScripted(dns.asyncbackend.Socket):
+    """Scripted socket for dns.asyncquery (handed out by a scripted Backend passed through the public backend= parameter)."""
+
+    def __init__(self, kind, frames, ev):
+        super().__init__(socket.AF_INET, kind)
+        self._sync = ScriptedSocket(kind, frames, ev)
+        self.sent = self._sync.sent
+
+    async def close(self):
+        self._sync.close()
+
+    async def sendto(self, what, destination, timeout):
+        return self._sync.sendto(what, destination)
+
+    async def recvfrom(self, size, timeout):
+        return self._sync.recvfrom(size)
+
+    async def sendall(self, what, timeout):
+        return self._sync.send(what)
+
+    async def recv(self, size, timeout):
+        return self._sync.recv(size)
+
+
+def exit_event(zone, relativize):
+    open_txns = 0
+    for txn in _CREATED:
+        if not getattr(txn, "_ended", False):
+            open_txns += 1
+    wtxn = getattr(zone, "_write_txn", None) is not None
+    usable = False
+    if not wtxn:
+        try:
+            with zone.writer() as txn:
+                txn.get(owner("@", not relativize), "SOA")
+            usable = True
+        except Stuck:
+            raise
+        except BaseException:  # noqa: BLE001
+            usable = False
+    return {"op": "exit", "zone": project_zone(zone, relativize), "open": open_txns, "wtxn": wtxn, "usable": usable}
+
+
+def replay_query(script, zclass, relativize, tid, try_first, use_async=False):
+    """The same transfer through dns.query.inbound_xfr: scripted sockets (dns.query.socket_factory), real framing,
+    real message parsing, the real read loop.  Inbound.process_message is wrapped (in this process only) to record
+    the per-message events.  With try_first the UDP attempt that ends in UseTCP is followed by the library's own
+    TCP retry, served with an AXFR-style answer of the target; that second transfer is a trace of its own."""
+    del _CREATED[:]
+    init = sorted([r[0], r[1], r[2], list(r[3])] for r in script["zone0"])
+    zone = make_zone(zclass, relativize, init)
+    del _CREATED[:]
+    req, udp = script["req"], bool(script["udp"])
+    base = list(script["base"])
+    target = sorted([r[0], r[1], r[2], list(r[3])] for r in script["target"])
+    msgs = [{"rcode": m["rcode"], "q": m["q"], "rrs": [[r[0], r[1], r[2], list(r[3])] for r in m["rrs"]]}
+            for m in script["msgs"]]
+    mode = ("aquery" if use_async else "query") + ("-tryfirst" if try_first else "")
+    trace = {"tid": tid, "zclass": zclass, "rel": relativize, "via": mode, "req": req, "udp": udp, "base": base,
+             "init": init, "zone0": project_zone(zone, relativize), "msgs": msgs, "kind": script["kind"],
+             "fault": script["fault"]["k"], "target": target, "ev": []}
+    traces = [trace]
+    serial = (base[0] * 65536 + base[1]) if req == "ixfr" else None
+    query, _ = dns.xfr.make_query(zone, serial)
+    soa = [r for r in target if r[1] == "SOA"]
+    rest = [r for r in target if r[1] != "SOA"]
+    tcp_msgs = [{"rcode": 0, "q": "ok", "rrs": soa + rest[:1]}, {"rcode": 0, "q": "none", "rrs": rest[1:] + soa}]
+    current = {"trace": trace, "n": 0}
+
+    def frames(ms):
+        return [build_message(m, req, query, relativize, "wire-bytes", None) for m in ms]
+
+    sockets = []
+
+    Sock = AsyncScripted if use_async else ScriptedSocket
+
+    def factory(af, kind, proto=0):
+        if kind == socket.SOCK_DGRAM:
+            sock = Sock(kind, frames(msgs), current["trace"]["ev"])
+        elif udp:
+            # the library falls back to TCP after UseTCP: the first transfer is over; observe the zone now
+            first = current["trace"]
+            first["ev"].append(exit_event(zone, relativize))
+            second = {"tid": tid + ".tcp", "zclass": zclass, "rel": relativize, "via": mode, "req": req, "udp": False,
+                      "base": base, "init": first["zone0"], "zone0": project_zone(zone, relativize), "msgs": tcp_msgs,
+                      "kind": "axfrstyle", "fault": "none", "target": target, "ev": []}
+            del _CREATED[:]
+            traces.append(second)
+            current["trace"] = second
+            current["n"] = 0
+            sock = Sock(kind, frames(tcp_msgs), second["ev"])
+        else:
+            sock = Sock(kind, frames(msgs), current["trace"]["ev"])
+        sockets.append(sock)
+        return sock
+
+    orig_pm = dns.xfr.Inbound.process_message
+    orig_factory = dns.query.socket_factory
+
+    def recording_pm(self, message):
+        current["n"] += 1
+        rec = {"op": "msg", "i": current["n"]}
+        try:
+            done = orig_pm(self, message)
+            rec.update(res="ok", exc="", ret=bool(done))
+            return done
+        except Stuck:
+            rec.update(res="err", exc="DRIVER-WATCHDOG", ret=False)
+            raise
+        except BaseException as e:  # noqa: BLE001
+            rec.update(res="err", exc=type(e).__name__, ret=False)
+            raise
+        finally:
+            rec["stx"], rec["st"] = state_of(self)
+            rec["txn"] = getattr(self, "txn", None) is not None
+            current["trace"]["ev"].append(rec)
+
+    dns.xfr.Inbound.process_message = recording_pm
+    dns.query.socket_factory = factory
+    try:
+        if udp:
+            umode = dns.query.UDPMode.TRY_FIRST if try_first else dns.query.UDPMode.ONLY
+        else:
+            umode = dns.query.UDPMode.NEVER
+        try:
+            if use_async:
+                class ScriptedBackend(dns.asyncbackend.Backend):
+                    def name(self):
+                        return "scripted"
+
+                    async def make_socket(self, af, socktype, proto=0, source=None, destination=None, timeout=None,
+                                          ssl_context=None, server_hostname=None):
+                        return factory(af, socktype, proto)
+
+                amode = dns.asyncquery.UDPMode(umode.value)
+                asyncio.run(dns.asyncquery.inbound_xfr("10.0.0.53", zone, query, udp_mode=amode, backend=ScriptedBackend()))
+            else:
+                dns.query.inbound_xfr("10.0.0.53", zone, query, udp_mode=umode)
+            outcome = ""
+        except Stuck:
+            raise
+        except BaseException as e:  # noqa: BLE001
+            outcome = type(e).__name__
+    finally:
+        dns.xfr.Inbound.process_message = orig_pm
+        dns.query.socket_factory = orig_factory
+        for sock in sockets:
+            (sock._sync if use_async else sock).close()
+    last = current["trace"]
+    last["ev"].append(exit_event(zone, relativize))
+    last["raised"] = outcome
+    # the request that went out: an IXFR query carries the base serial in its authority section
+    for sock in sockets[:1]:
+        if sock.sent:
+            wire = sock.sent[0] if sock.type == socket.SOCK_DGRAM else bytes(sock.sent[0])[2:]
+            q = dns.message.from_wire(wire)
+            trace["sent"] = {"rdtype": dns.rdatatype.to_text(q.question[0].rdtype),
+                             "serial": limbs(dns.xfr.extract_serial_from_query(q))}
+    trace["extra"] = traces[1:]
+    return trace
+
+
 def replay(script, zclass, relativize, via, tid):
+    if via in ("query", "query-tryfirst", "aquery", "aquery-tryfirst"):
+        return replay_query(script, zclass, relativize, tid, via.endswith("-tryfirst"), via.startswith("aquery"))
     del _CREATED[:]
     init = sorted([r[0], r[1], r[2], list(r[3])] for r in script["zone0"])
     zone = make_zone(zclass, relativize, init)
@@ -187,6 +401,9 @@ def replay(script, zclass, relativize, via, tid):
                     m = build_message(msgs[i], req, query, relativize, via, fwo, not udp)
                     done = ib.process_message(m)
                     rec.update(res="ok", exc="", ret=bool(done))
+                except Stuck:
+                    rec.update(res="err", exc="DRIVER-WATCHDOG", ret=False)
+                    raise
                 except BaseException as e:  # noqa: BLE001 - every outcome is an event
                     rec.update(res="err", exc=type(e).__name__, ret=False)
                     raise
@@ -195,30 +412,35 @@ def replay(script, zclass, relativize, via, tid):
                     rec["txn"] = getattr(ib, "txn", None) is not None
                     ev.append(rec)
                 i += 1
+    except Stuck:
+        raise
     except BaseException:  # noqa: BLE001
         pass
-    open_txns = 0
-    for txn in _CREATED:
-        if not getattr(txn, "_ended", False):
-            open_txns += 1
-    wtxn = getattr(zone, "_write_txn", None) is not None
-    usable = False
-    if not wtxn:
-        try:
-            with zone.writer() as txn:
-                txn.get(owner("@", not relativize), "SOA")
-            usable = True
-        except BaseException:  # noqa: BLE001
-            usable = False
-    ev.append({"op": "exit", "zone": project_zone(zone, relativize), "open": open_txns, "wtxn": wtxn, "usable": usable})
+    ev.append(exit_event(zone, relativize))
     return trace
+
+
+def _alarm(signum, frame):
+    raise Stuck()
 
 
 def run_job(job):
     script, zclass, relativize, via, tid = job
+    # watchdog: dns.versioned.Zone.writer() blocks for ever if an earlier transaction was left open;
+    # a stuck job becomes an event nobody matches instead of a hung check
+    try:
+        signal.signal(signal.SIGALRM, _alarm)
+        signal.setitimer(signal.ITIMER_REAL, WATCHDOG_S)
+    except ValueError:  # not in the main thread
+        pass
     try:
         return replay(script, zclass, relativize, via, tid)
-    except Exception as e:  # a driver failure becomes an event nobody matches
+    except (Exception, Stuck) as e:  # a driver failure becomes an event nobody matches
         return {"tid": tid, "zclass": zclass, "rel": relativize, "via": via, "req": "axfr", "udp": False, "base": [],
                 "init": [], "zone0": [], "msgs": [], "kind": "driver-error", "fault": "none", "target": [],
                 "ev": [{"op": "driver-error", "exc": repr(e)}]}
+    finally:
+        try:
+            signal.setitimer(signal.ITIMER_REAL, 0)
+        except ValueError:
+            pass
